@@ -214,20 +214,23 @@ pub fn run(tier: Tier, shard: Shard, stats: &mut Stats) {
         }
     }
     // {wide_msg}: a truncating field as wide as the rest of the line
+    // (also with other template lines before and after the line that holds it: their columns are not its line's)
+    for (pre, post) in [("", ""), ("yyyy\n", ""), ("{prefix:8}|\n", "\nzz"), ("", "\nzz")] {
+    let framed = !pre.is_empty() || !post.is_empty();
     for tw in 1..=12u16 {
         let catcher = LineCatcher::new(tw);
         for other in 0..=3usize {
             for (align, astr) in [('<', ""), ('>', ":>"), ('^', ":^")] {
                 for last in [true, false] {
                     let lead = "x".repeat(other);
-                    let tpl = if last { format!("{lead}{{wide_msg{astr}}}") } else { format!("{{wide_msg{astr}}}{lead}") };
+                    let tpl = if last { format!("{pre}{lead}{{wide_msg{astr}}}{post}") } else { format!("{pre}{{wide_msg{astr}}}{lead}{post}") };
                     if !last && other == 0 {
                         continue;
                     }
                     let style = ProgressStyle::with_template(&tpl).unwrap();
                     let pb = bar_on(&catcher, Some(5), style);
                     for c in &all {
-                        if c.len() > 4 {
+                        if c.len() > 4 || (framed && c.len() > 2) {
                             continue;
                         }
                         case += 1;
@@ -246,7 +249,7 @@ pub fn run(tier: Tier, shard: Shard, stats: &mut Stats) {
                         match r {
                             Err(p) => stats.violation(Violation { class: format!("panic: {}", panic_class(&p)), config: "wide_msg".into(), history: hist, detail: p }),
                             Ok(lines) => {
-                                let line = lines.first().cloned().unwrap_or_default();
+                                let line = lines.get(usize::from(!pre.is_empty())).cloned().unwrap_or_default();
                                 let field: String = if last { line.strip_prefix(&lead).unwrap_or(&line).to_string() } else { line.strip_suffix(&lead).unwrap_or(&line).to_string() };
                                 // a trailing wide_msg is right-trimmed by the crate: re-pad for judging
                                 let (vis_rest, _) = strip_csi(&field);
@@ -263,6 +266,68 @@ pub fn run(tier: Tier, shard: Shard, stats: &mut Stats) {
                         }
                     }
                     pb.abandon();
+                }
+            }
+        }
+    }
+    }
+    // a tab in the content and a tab width that changes between two draws: the field is laid out with
+    // the width the text has under the *current* tab width
+    {
+        let catcher = LineCatcher::new(30);
+        for (spec, key, w, align, trunc) in [("{msg:12}", "msg", 12usize, '<', false), ("{prefix:>12}", "prefix", 12, '>', false), ("{msg:6!}", "msg", 6, '<', true), ("{msg:^9}", "msg", 9, '^', false), ("{wide_msg}", "msg", 28, '<', true)] {
+            for (t1, t2) in [(8usize, 2usize), (2, 8), (4, 1), (0, 3), (3, 0), (4, 4)] {
+                for text in ["a\tb", "\t", "ab\tc\td"] {
+                    for first_draw in [true, false] {
+                        case += 1;
+                        if !shard.owns(case) {
+                            continue;
+                        }
+                        stats.evaluations += 1;
+                        stats.transitions += 1;
+                        let tpl = format!("|{spec}|");
+                        let hist = vec![tpl.clone(), format!("{key} {:?}", text), format!("tab width {t1}{}, then set_tab_width({t2}), draw", if first_draw { ", draw" } else { "" })];
+                        let r = catch(|| {
+                            let pb = bar_on(&catcher, Some(5), ProgressStyle::with_template(&tpl).unwrap()).with_tab_width(t1);
+                            if key == "msg" {
+                                pb.set_message(text);
+                            } else {
+                                pb.set_prefix(text);
+                            }
+                            if first_draw {
+                                pb.tick();
+                            }
+                            pb.set_tab_width(t2);
+                            let l = frame_lines(&catcher, &pb);
+                            pb.abandon();
+                            l
+                        });
+                        match r {
+                            Err(p) => stats.violation(Violation { class: format!("panic: {}", panic_class(&p)), config: "tab-width change".into(), history: hist, detail: p }),
+                            Ok(lines) => {
+                                let line = lines.first().cloned().unwrap_or_default();
+                                let content = text.replace('\t', &" ".repeat(t2));
+                                let n = content.chars().count();
+                                let want_field = if n > w {
+                                    if trunc { content.chars().take(w).collect::<String>() } else { content.clone() }
+                                } else {
+                                    let d = w - n;
+                                    match align {
+                                        '<' => format!("{content}{}", " ".repeat(d)),
+                                        '>' => format!("{}{content}", " ".repeat(d)),
+                                        _ => format!("{}{content}{}", " ".repeat(d / 2), " ".repeat(d - d / 2)),
+                                    }
+                                };
+                                let want = format!("|{want_field}|");
+                                let alt = if align == '^' && n <= w { let d = w - n; format!("|{}{content}{}|", " ".repeat(d - d / 2), " ".repeat(d / 2)) } else { want.clone() };
+                                if line != want && line != alt {
+                                    stats.violation(Violation { class: "tab: a field is not laid out with the text's width under the current tab width".into(), config: "tab-width change".into(), history: hist, detail: format!("rendered {:?}, expected {:?}", line, want) });
+                                } else {
+                                    stats.state(hash_of(&("tab", spec, t1, t2, text, first_draw)), true);
+                                }
+                            }
+                        }
+                    }
                 }
             }
         }
@@ -366,7 +431,7 @@ pub fn meta(tier: Tier) -> Meta {
     let l = if tier == Tier::Quick { 4 } else { 6 };
     Meta {
         level: "exploration",
-        rule: format!("every content string of <= {l} units over {{a, b, é (2 bytes/1 col), 日 (3 bytes/2 cols), SGR-wrapped z (9 bytes/1 col)}} x width {{0..=12, 255, 65535}} x align {{<,^,>}} x truncate {{off,on}} through {{msg:...}} on a real bar; {{wide_msg}} / :> / :^ first or last on the line with 0-3 other columns on terminals of 1..=12 columns; column-exact oracle; distinct = (outcome kind, width, align, content shape); non-trivial = non-empty content"),
+        rule: format!("every content string of <= {l} units over {{a, b, é (2 bytes/1 col), 日 (3 bytes/2 cols), SGR-wrapped z (9 bytes/1 col)}} x width {{0..=12, 255, 65535}} x align {{<,^,>}} x truncate {{off,on}} through {{msg:...}} on a real bar; {{wide_msg}} / :> / :^ first or last on the line with 0-3 other columns on terminals of 1..=12 columns, alone and with other template lines before/after its line; the same next to an overflowing fixed-width field; every keyed field kind with widths 0..=12; tabbed text redrawn after set_tab_width through padded, truncating, centred and wide fields; column-exact oracle; distinct = (outcome kind, width, align, content shape); non-trivial = non-empty content"),
         assumptions: vec!["centre padding may split an odd remainder either way".into(), "a truncated field may be one column short only when the cut would fall inside a double-width character".into()],
         bounds: json!({"max_units": l}),
         exhaustive: true,
